@@ -18,6 +18,10 @@ func (m *ProofExternalOwnedAccount) ValidateBasic() error {
 		return errorsmod.Wrapf(errors.ErrInvalidRequest, "account is not a valid bech32 account address: %s", m.Account)
 	}
 
+	if len(accAddr) != common.AddressLength {
+		return errorsmod.Wrapf(errors.ErrInvalidRequest, "account must be a %d-byte address: %s", common.AddressLength, m.Account)
+	}
+
 	if !strings.HasPrefix(m.Hash, "0x") {
 		return errorsmod.Wrap(errors.ErrInvalidRequest, "hash must starts with 0x")
 	}
